@@ -44,6 +44,11 @@ class IdGenerator:
         self._next_id += 1
         return result
 
+    def reserve_id(self, used_id: int):
+        """Makes sure that ids generated from now on are larger than `used_id`, which was assigned by other means."""
+        if isinstance(used_id, int) and used_id >= self._next_id:
+            self._next_id = used_id + 1
+
 
 class Utf16CodepointOffsetConverter:
     """The Java platform and therefore UIMA internally uses a UTF-16 representation for text. For this reason,
@@ -272,9 +277,13 @@ class Cas:
     def _add_view(self, name: str, xmiID: Optional[int] = None, sofaNum: Optional[int] = None):
         if xmiID is None:
             xmiID = self._get_next_xmi_id()
+        else:
+            self._xmi_id_generator.reserve_id(xmiID)
 
         if sofaNum is None:
             sofaNum = self._get_next_sofa_num()
+        else:
+            self._sofa_num_generator.reserve_id(sofaNum)
 
         # Create sofa
         sofa = Sofa(xmiID=xmiID, sofaNum=sofaNum, sofaID=name, type=self.typesystem.get_type(TYPE_NAME_SOFA))
@@ -327,6 +336,7 @@ class Cas:
 
         if keep_id and annotation.xmiID is not None:
             next_id = annotation.xmiID
+            self._xmi_id_generator.reserve_id(next_id)
         else:
             next_id = self._get_next_xmi_id()
 
